@@ -95,7 +95,7 @@ def user_call(ex, st, f, pos, named, stars, sargs, node):
 # `self.event(etype, **data)` as seen by a caller inside the same block (init_from_value and friends): the call is
 # recorded in the activation trace with its data; what the handler does is the handler's own contract.
 @contract('*.event', modifies=('_output', '_event_active'), result=VAL,
-          sig=([__import__('pyvc.contract', fromlist=['Param']).Param('self', Ref()),
+          sig=([__import__('pyvc.contract', fromlist=['Param']).Param('self', Ref(), posonly=True),
                 __import__('pyvc.contract', fromlist=['Param']).Param('etype', VAL, posonly=True)], None, 'data'),
           trusted='SBlock.event / AddonPersistence.event (verified under C11, C09, C06)',
           traced=lambda a, st: rec('event', to_val(a['self'], st), to_val(a['etype'], st), kw=a['data'].arr))
